@@ -1436,6 +1436,10 @@ class SSHConnection(SSHPacketHandler, asyncio.Protocol):
 
         # pylint: disable=unused-argument
 
+        # Ignore anything which arrives after the connection was closed
+        if not self._transport:
+            return
+
         self._inpbuf += data
 
         self._recv_data()
